@@ -963,15 +963,24 @@ pub fn payout_scenario_txs(sim: &Sim, k: usize, ts: u64) -> Vec<Transaction> {
 /// their new outputs spendable, the outputs of the losing block gone; then A builds block k + 2
 /// (C13 oracle on it), which B must accept as well.  B's linear history goes to the model.
 pub async fn fork_history_atr(hrng: &mut Rng, gp: u64, case: usize) -> (Sim, String, Vec<String>, String) {
+    fork_history_atr_deep(hrng, gp, 8, 0, case).await
+}
+
+/// the same with `extra` more blocks on either branch (fork depth 1 + extra on the losing side) and a
+/// chosen prune_after_blocks: with prune_after_blocks < depth the reorganisation unwinds blocks whose
+/// transactions were already dropped from memory
+pub async fn fork_history_atr_deep(hrng: &mut Rng, gp: u64, pab: u64, extra: usize, case: usize) -> (Sim, String, Vec<String>, String) {
     let nkeys = 4u8;
     let issuance = gen_issuance(hrng, nkeys, false);
-    let mut a = Sim::new(gp, 8, nkeys, &issuance, 1_000_000).await;
-    let mut b = Sim::new(gp, 8, nkeys, &issuance, 1_000_000).await;
+    let mut a = Sim::new(gp, pab, nkeys, &issuance, 1_000_000).await;
+    let mut b = Sim::new(gp, pab, nkeys, &issuance, 1_000_000).await;
     let shared = (gp + 2 + hrng.below(gp + 3)) as usize;
     let desc = format!(
-        "{{\"case\":{},\"kind\":\"fork\",\"genesis_period\":{},\"shared_blocks\":{},\"issuance\":{:?}}}",
+        "{{\"case\":{},\"kind\":\"fork\",\"genesis_period\":{},\"prune_after_blocks\":{},\"fork_depth\":{},\"shared_blocks\":{},\"issuance\":{:?}}}",
         case,
         gp,
+        pab,
+        1 + extra,
         shared,
         issuance.iter().map(|(k, a)| vec![*k as u64, *a]).collect::<Vec<_>>()
     );
@@ -1041,6 +1050,19 @@ pub async fn fork_history_atr(hrng: &mut Rng, gp: u64, case: usize) -> (Sim, Str
             fails.extend(r.failures);
         }
         let losing = a.tip().clone();
+        for j in 0..extra {
+            if !ok {
+                break;
+            }
+            let tsx = a.tip().timestamp + 2 * HEARTBEAT + 2600;
+            let p = a.tip().clone();
+            let gtx = gt_tx_for(&a.node, &p, a.keys[1].0, 920 + j as u64).await;
+            let (_c, srx, repx, _m) = atr_checked_step(&mut a, tsx, Some(gtx), &[]).await;
+            ok = srx.add == Some(AddClass::OnChain);
+            if let Some(r) = repx {
+                fails.extend(r.failures);
+            }
+        }
         // B: leaves the edge output alone
         let txb = match other.last() {
             Some(s) => vec![gen_payment(&b, hrng, s, 2, false, ts + 11)],
@@ -1054,7 +1076,8 @@ pub async fn fork_history_atr(hrng: &mut Rng, gp: u64, case: usize) -> (Sim, Str
         }
         let mut edge_rebroadcast = false;
         if ok {
-            let ts2 = b.tip().timestamp + 2 * HEARTBEAT + 900;
+            // (the longer branch must also carry at least as much burn fee: its blocks follow each other faster)
+            let ts2 = b.tip().timestamp + 2 * HEARTBEAT + if extra == 0 { 900 } else { 300 };
             let gt2 = if want_gt(&b, hrng, true) { let p = b.tip().clone(); Some(gt_tx_for(&b.node, &p, b.keys[2].0, 903).await) } else { None };
             let (_c, srb2, repb2, _m) = atr_checked_step(&mut b, ts2, gt2, &[]).await;
             ok = srb2.add == Some(AddClass::OnChain);
@@ -1065,11 +1088,33 @@ pub async fn fork_history_atr(hrng: &mut Rng, gp: u64, case: usize) -> (Sim, Str
                 edge_rebroadcast = b.tip().transactions.iter().any(|t| t.transaction_type == TransactionType::ATR && t.from.iter().any(|f| f.get_utxoset_key() == es.get_utxoset_key()));
             }
         }
+        for j in 0..extra {
+            if !ok {
+                break;
+            }
+            let tsx = b.tip().timestamp + 2 * HEARTBEAT + 300;
+            let p = b.tip().clone();
+            let gtx = gt_tx_for(&b.node, &p, b.keys[2].0, 940 + j as u64).await;
+            let (_c, srx, repx, _m) = atr_checked_step(&mut b, tsx, Some(gtx), &[]).await;
+            ok = srx.add == Some(AddClass::OnChain);
+            if let Some(r) = repx {
+                fails.extend(r.failures);
+            }
+        }
         if ok {
             let n = b.chain.len();
-            let (bk, bk1) = (b.chain[n - 2].clone(), b.chain[n - 1].clone());
-            let r1 = futures_catch(AssertUnwindSafe(a.node.add_block(bk.clone()))).await;
-            let r2 = futures_catch(AssertUnwindSafe(a.node.add_block(bk1.clone()))).await;
+            let branch: Vec<Block> = b.chain[n - 2 - extra..].to_vec();
+            let (bk, bk1) = (branch[0].clone(), branch[1].clone());
+            // every block of the competing branch but the last is stored as a side block; the last one makes
+            // the branch longer and triggers the reorganisation
+            let mut r1 = Ok(AddClass::OffChain);
+            for blk in &branch[..branch.len() - 1] {
+                let r = futures_catch(AssertUnwindSafe(a.node.add_block(blk.clone()))).await;
+                if r != Ok(AddClass::OffChain) {
+                    r1 = r;
+                }
+            }
+            let r2 = futures_catch(AssertUnwindSafe(a.node.add_block(branch[branch.len() - 1].clone()))).await;
             delivery = format!("{:?}/{:?}:edge-output-{}", r1.clone().map(|c| c.code()), r2.clone().map(|c| c.code()), if edge.is_empty() { "none" } else if edge_rebroadcast { "rebroadcast-by-winner" } else { "dust-or-spent" });
             match (r1, r2) {
                 (Ok(AddClass::OffChain), Ok(AddClass::OnChain)) => {
@@ -1112,9 +1157,15 @@ pub async fn fork_history_atr(hrng: &mut Rng, gp: u64, case: usize) -> (Sim, Str
                     // (blocks k + 2 .. k + gp + 3): C13 oracle on every block — the outputs of the WINNING block k
                     // must be the ones that are rebroadcast at k + gp + 1, although the abandoned block was stored
                     // first at that height — and B, which only saw the winning chain, must accept each of them
-                    a.chain.pop();
-                    a.chain.push(bk);
-                    a.chain.push(bk1);
+                    for _ in 0..(1 + extra) {
+                        a.chain.pop();
+                    }
+                    for blk in &branch {
+                        a.chain.push(blk.clone());
+                    }
+                    if a.node.blockchain.get_latest_block_hash() != a.tip().hash {
+                        fails.push(format!("after the longer branch was delivered the node's tip is block {}, not the tip {} of that branch", a.node.blockchain.get_latest_block_id(), a.tip().id));
+                    }
                     a.rebroadcast_seen = b.rebroadcast_seen.clone();
                     for j in 0..(gp + 2) {
                         let ts3 = a.tip().timestamp + 2 * HEARTBEAT + 500;
@@ -1140,7 +1191,7 @@ pub async fn fork_history_atr(hrng: &mut Rng, gp: u64, case: usize) -> (Sim, Str
                     }
                 }
                 (r1, r2) => {
-                    fails.push(format!("fork delivery: sibling {:?}, its child {:?} (expected off-chain, then on-chain)", r1, r2));
+                    fails.push(format!("fork delivery: the node does not follow the longer valid branch ({} blocks against {}): side blocks {:?}, the block that makes the branch longer {:?} (expected off-chain, then on-chain); its tip is block {}", 2 + extra, 1 + extra, r1, r2, a.node.blockchain.get_latest_block_id()));
                 }
             }
         } else {
